@@ -39,6 +39,7 @@ class Machine(object):
         if book:
             self.within.update({'section': 'chapter', 'equation': 'chapter', 'figure': 'chapter', 'table': 'chapter', 'footnote': 'chapter'})
         self.appendix = False
+        self.user_trace = []
         self.thm_counter = {}
         self.thm_within = {}
         if 'zqthm' in theorems or 'zqlem' in theorems:
@@ -88,6 +89,10 @@ class Machine(object):
 
 def numbers(doc, secnumdepth=2):
     m = Machine(doc['cls'], doc.get('theorems', ()))
+    if doc.get('user_counters'):
+        m.v['zqu'] = m.v['zqw'] = 0
+        m.within['zqu'] = 'section'
+        m.within['zqw'] = 'zqu'
     out = []
     listdepth = [0]
 
@@ -151,6 +156,8 @@ def numbers(doc, secnumdepth=2):
                     m.v[b['name']] = b['value']
                 else:
                     m.v[b['name']] += b['value']
+                if b['name'] in ('zqu', 'zqw'):
+                    m.user_trace.append('Zu%dv%dw' % (m.v['zqu'], m.v['zqw']))
 
     def sec(s):
         c = SEC_COUNTER[s['level']]
